@@ -3,10 +3,12 @@
    STRING, DATE and enumerated values (records of records, arrays inside records): load (dump v) = v, with
    nothing left over, for every such value; every such value can be dumped; STRING payloads of arbitrary
    bytes and CHAR fields of all 256 codes survive the marking of line breaks; the marked form is line safe.
+   The file as a whole: every written value is one record whose line breaks are all followed by '#', and a file
+   of such records, closed and opened again (or read by a later run), yields exactly the records written.
    PARTIAL (stated, not proved): REAL leaves -- the text form has 17 significant digits and is read back by a
    correctly rounded strtod; that round trip is compared with the implementation on boundary and random
    numbers.  Pointer fields are not stored (their dump is empty and they do not read back: the code's rule). *)
-From PE2 Require Import Codec Lemmas_Codec Lemmas_Numerals Lemmas_CodecTree.
+From PE2 Require Import Codec Lemmas_Codec Lemmas_Numerals Lemmas_CodecTree Lemmas_RecLines.
 Local Open Scope Z_scope.
 
 Theorem C13_string_payload_roundtrip : forall s rest0,
@@ -47,6 +49,18 @@ Theorem C13_decimal_numeral_roundtrip : forall lo hi z rest, lo <= z <= hi -> no
 Proof. exact rd_integer_z_to_str. Qed.
 Print Assumptions C13_decimal_numeral_roundtrip.
 
+(* a written value is a well-formed record of the file: line safe, not empty, not starting with '#' *)
+Theorem C13_written_value_is_one_record : forall v dx, wf v -> dump v = Some dx ->
+  line_safe dx = true /\ dx <> [] /\ starts_hash dx = false.
+Proof. exact dump_is_record. Qed.
+Print Assumptions C13_written_value_is_one_record.
+
+(* the values written to a random file, in order, are the records found after CLOSEFILE and OPENFILE or by a later run *)
+Theorem C13_file_of_values_survives_reopen : forall vs recs, Forall wf vs -> dump_all vs = Some recs ->
+  load_records (store_records recs) = recs.
+Proof. exact file_of_values_reopens. Qed.
+Print Assumptions C13_file_of_values_survives_reopen.
+
 (* non-vacuity: a record holding a record, an array of records and every scalar kind meets the premises *)
 Definition c13_inner : vtree := VRec (str_of_string "Inner") [VInt (-42); VStr (str_of_string "two
 lines")] [].
@@ -69,3 +83,11 @@ Example C13_examples :
 #b"), [], true) /\
   snd (load (VInt 0) (str_of_string "STRING 1 x")) = false.
 Proof. vm_compute. repeat split; reflexivity. Qed.
+
+Example C13_file_example :
+  match dump_all [c13_sample; VStr (str_of_string "x
+"); VChar ch_nl; c13_inner] with
+  | Some recs => (4 <? Z.of_nat (List.length (split_lines (store_records recs)))) &&
+                 (Z.of_nat (List.length (load_records (store_records recs))) =? 4)
+  | None => false end = true.
+Proof. vm_compute. reflexivity. Qed.
